@@ -34,7 +34,7 @@ type c17Scenario struct {
 	Out        string            `json:"out"`        // as given on the command line ({S} = sandbox)
 	Modules    []c17Module       `json:"modules"`    // in some walk order, root first
 	Plugins    []c17Plugin       `json:"plugins"`
-	Probe      string            `json:"probe"` // "" main stream; "D32" / "D33": known-finding probes
+	Probe      string            `json:"probe"` // "" main stream; "D42" / "D33": known-finding probes
 }
 
 type c17Module struct {
@@ -219,7 +219,7 @@ var dotdotShapes = []string{"../x.go", "a/../../x.go", "..", "a/..", "a..b/x.go"
 
 func cleanRel(p string) string { return filepath.Join("/", p) }
 
-// usable: the cleaned target is a plain file position that clashes with nothing (the D32 /
+// usable: the cleaned target is a plain file position that clashes with nothing (the D42 /
 // D33 shapes are excluded from the main stream by construction).
 func usable(p string, taken map[string]bool) bool {
 	c := cleanRel(p)
@@ -437,7 +437,7 @@ func c17Check(c *checker, scs []c17Scenario, how string) {
 		outRel, _ := filepath.Rel(sandbox, filepath.Clean(outAbs))
 
 		switch s.Probe {
-		case "D32":
+		case "D42":
 			// two sources, same file after cleaning: the model lists both entries; the
 			// implementation silently keeps one of them
 			if res.exit == 0 && strings.HasPrefix(model, "ok ") {
@@ -456,16 +456,16 @@ func c17Check(c *checker, scs []c17Scenario, how string) {
 				}
 				if dupPath != "" && ok {
 					d32Once.Do(func() {
-						c.rep.Known = append(c.rep.Known, report.Known{ID: "D32", What: "two sources wrote the same file (paths equal only after filepath.Join cleaning): no conflict reported, exit 0, one content silently wins (" + s.Label + ")"})
+						c.rep.Known = append(c.rep.Known, report.Known{ID: "D42", What: "two sources wrote the same file (paths equal only after filepath.Join cleaning): no conflict reported, exit 0, one content silently wins (" + s.Label + ")"})
 					})
 					continue
 				}
 			}
 			if res.exit != 0 {
-				c.rep.Notes = appendOnce(c.rep.Notes, "D32 probe now fails with an error: the finding appears repaired ("+firstLine(res.stderr)+")")
+				c.rep.Notes = appendOnce(c.rep.Notes, "D42 probe now fails with an error: the finding appears repaired ("+firstLine(res.stderr)+")")
 				continue
 			}
-			c.rep.Disagree(report.Disagreement{Kind: "C17 D32 probe: unexpected behaviour", Input: input, Impl: impl, Model: model})
+			c.rep.Disagree(report.Disagreement{Kind: "C17 D42 probe: unexpected behaviour", Input: input, Impl: impl, Model: model})
 			continue
 		case "D34":
 			escaped := ""
@@ -605,9 +605,9 @@ func c17Probes() []c17Scenario {
 		return c17Scenario{Label: label, Probe: probe, Cwd: "work", Files: files, Main: mods[0].Path, Out: "{S}/out", Modules: mods, Plugins: plugins}
 	}
 	return []c17Scenario{
-		base("plugin ./main/main.go vs core main/main.go", "D32", c17Plugin{Name: "alpha", Files: []kv2{{"./main/main.go", "PLUGIN"}}}),
-		base("plugins x.go and ./x.go", "D32", c17Plugin{Name: "alpha", Files: []kv2{{"x.go", "AAA"}}}, c17Plugin{Name: "beta", Files: []kv2{{"./x.go", "BBB"}}}),
-		base("plugins a/b.go and /a//b.go", "D32", c17Plugin{Name: "alpha", Files: []kv2{{"a/b.go", "AAA"}}}, c17Plugin{Name: "beta", Files: []kv2{{"/a//b.go", "BBB"}}}),
+		base("plugin ./main/main.go vs core main/main.go", "D42", c17Plugin{Name: "alpha", Files: []kv2{{"./main/main.go", "PLUGIN"}}}),
+		base("plugins x.go and ./x.go", "D42", c17Plugin{Name: "alpha", Files: []kv2{{"x.go", "AAA"}}}, c17Plugin{Name: "beta", Files: []kv2{{"./x.go", "BBB"}}}),
+		base("plugins a/b.go and /a//b.go", "D42", c17Plugin{Name: "alpha", Files: []kv2{{"a/b.go", "AAA"}}}, c17Plugin{Name: "beta", Files: []kv2{{"/a//b.go", "BBB"}}}),
 		{Label: "thrift file named ...thrift directly in the inferred root", Probe: "D34", Cwd: "work", Main: "proj/...thrift", Out: "{S}/o/out",
 			Files:   map[string]string{"proj/...thrift": "struct S { 1: optional string a }\n", "sibling/keep.txt": "keep"},
 			Modules: []c17Module{{Path: "proj/...thrift"}}},
@@ -704,5 +704,5 @@ func runC17(c *checker, r *rng.R) {
 	c17Paths(c, r)
 	c.flush()
 	c.rep.Rule = "scenarios = the real thriftrw binary in a sandbox tree (sources, output directory with pre-existing files, a sibling directory) hashed before/after: 1..5 modules in 5 directory layouts with the k-th module failing to generate x {no --thrift-root, proj, grandparent, main's own dir, uncleaned, relative} x 5 out-dir spellings x 0..3 plugins returning paths from {relative, absolute, .., ., repeated separators, trailing slash, equal to a core path, equal to another plugin's path} or failing; compared with the Lean plan (exit status + exact set of files written with contents); + 12k random POSIX path pairs through Clean/Join/Rel/Dir/Base/IsAbs/generated-file path vs path/filepath. non-trivial = has plugins, several modules or an explicit root; distinct by scenario"
-	c.rep.Notes = append(c.rep.Notes, "main-stream plugin paths never clean to the output directory itself nor collide (after cleaning) with another output: those shapes are findings D32/D33 and have their own probes")
+	c.rep.Notes = append(c.rep.Notes, "main-stream plugin paths never clean to the output directory itself nor collide (after cleaning) with another output: those shapes are findings D42/D33 and have their own probes")
 }
